@@ -408,6 +408,34 @@ VARIANTS = [
     V("c05-probe-assign-uncontained", {"C05": "R6"}, edits=[
         (H, "                    try:\n                        self._apply_assign(self._resolve_params(action_def.params, event) or {}, event)\n                    except Exception:\n                        pass\n                        return\n", "                    self._apply_assign(self._resolve_params(action_def.params, event) or {}, event)\n")],
       note="revert of fix commit 45ea722"),
+    # ------------------------------------------------------------------ rules added after the second round, wave 2
+    V("c14-finished-child-forgotten-unstopped", {"C14": "R5", "C15": "R9"}, edits=[
+        (I, "                self._actors.pop(child_interpreter.id, None)\n                await child_interpreter.stop()\n",
+            "                self._actors.pop(child_interpreter.id, None)\n                if child_interpreter.status == 'running':\n                    await child_interpreter.stop()\n")],
+      note="revert of fix commit 14f47e0"),
+    V("c14-finished-actor-releases-itself", {"C14": "R5"}, edits=[
+        (I, "    async def _process_event_and_transient_transitions(self, event", "    def _release_from_parent(self) -> None:\n        parent = self.parent\n        if parent is None or self.status not in ('done', 'error'):\n            return\n        if parent._actors.get(self.id) is self:\n            del parent._actors[self.id]\n\n    async def _process_event_and_transient_transitions(self, event")],
+      note="a removal from a parent's actor map in a function that stops nothing"),
+    V("silent-stopchild-unregisters-through-helper", silent=["C15", "C14"], edits=[
+        (S, "            registry = self._system_registry()\n            for system_id, candidate in list(registry.items()):\n                if candidate is actor:\n                    del registry[system_id]\n            actor.stop()\n",
+            "            actor._unregister_from_system()\n            actor.stop()\n")],
+      note="stopChild removes the registry entries through the child's own helper"),
+    V("c13-depth-counter-reset-at-cut", {"C13": "R5"}, edits=[
+        (B, "        if depth > self.MAX_ACTION_DEPTH:\n            pass\n            return []\n", "        if depth > self.MAX_ACTION_DEPTH:\n            self._action_depth = 0\n            return []\n")]),
+    V("c18-walk-strips-own-key", {"C18": "R6"}, edits=[
+        ("resolver.py", "    current = start_node\n    for key in path:\n", "    if path and path[0] == start_node.key:\n        path = path[1:]\n    current = start_node\n    for key in path:\n")]),
+    V("silent-walk-copies-path", silent=["C18"], edits=[
+        ("resolver.py", "    current = start_node\n    for key in path:\n", "    path = list(path)\n    current = start_node\n    for key in path:\n")]),
+    V("c19-arity-of-class-function", {"C19": "R7"}, edits=[
+        ("machine_logic.py", "            bound = getattr(self, name)\n            try:\n                arity = len(inspect.signature(bound).parameters)\n", "            try:\n                arity = len(inspect.signature(member).parameters) - 1\n"),
+        ("machine_logic.py", "            registry[name] = bound\n", "            registry[name] = getattr(self, name)\n")]),
+    V("silent-arity-bound-inline", silent=["C19"], edits=[
+        ("machine_logic.py", "            bound = getattr(self, name)\n            try:\n                arity = len(inspect.signature(bound).parameters)\n", "            try:\n                arity = len(inspect.signature(getattr(self, name)).parameters)\n"),
+        ("machine_logic.py", "            registry[name] = bound\n", "            registry[name] = getattr(self, name)\n")]),
+    V("c17-tags-through-a-set", {"C17": "R6"}, edits=[
+        ("cli/ir.py", "    tags = tuple((t for t in _as_list(config.get('tags')) if isinstance(t, str)))\n", "    tags = tuple({t for t in _as_list(config.get('tags')) if isinstance(t, str)})\n")]),
+    V("silent-tags-deduplicated-in-order", silent=["C17"], edits=[
+        ("cli/ir.py", "    tags = tuple((t for t in _as_list(config.get('tags')) if isinstance(t, str)))\n", "    tags = tuple(dict.fromkeys((t for t in _as_list(config.get('tags')) if isinstance(t, str))))\n")]),
     # ================================================================== must stay silent
     V("silent-normal-form", silent=ALL, edits=[], note="whole tree re-emitted by ast.unparse: formatting, comments and line numbers all change"),
     V("silent-rename-local", silent=["C01", "C03", "C05", "C09", "C10"], edits=[
